@@ -263,6 +263,15 @@ func (w *World) checkRootHandling(P string, f *Facts, r *Roles, ef *ExecFacts) {
 		w.check(P, "R01.11", "axis following: attribute and namespace context nodes", p, kinds["Attribute"] && kinds["Namespace"], fmt.Sprintf("node kinds tested by the following collector: %v (both node.Attribute and node.Namespace are required)", keys(kinds)))
 	}
 	w.floor(P, "R01.11", 1)
+	// R01.12 selectors are per-context-node functions
+	docRule(P, "R01.12", "F", "every axis selector computes its result from each context node independently: the incoming node-set is only ranged over and no branch inside that loop depends on state carried over from earlier context nodes (node-sets arrive in descending order after a reverse axis, so order-dependent shortcuts drop nodes).")
+	for _, axis := range axes {
+		if arm := at.Arms[axis]; arm != nil && arm.Callee != nil {
+			ok, why := selectorLocal(arm.Callee)
+			w.check(P, "R01.12", "axis "+axis+": selector treats context nodes independently", arm.Callee.Pos(), ok, why)
+		}
+	}
+	w.floor(P, "R01.12", 12)
 	w.floor(P, "R01.5a", 6)
 	w.floor(P, "R01.5b", 2)
 	w.floor(P, "R01.5c", 4)
